@@ -425,6 +425,29 @@ def comprehension(it, st, node, flavour: str) -> V:
             return symbolic_comprehension(it, st, node, gen, src, flavour)
         if isinstance(src, VHeapDict):
             raise Unsupported("comprehension over heap dict")
+        if (isinstance(src, VGen) and src.name == "repo-generator" and getattr(src.payload, "contract", None) is not None
+                and not gen.ifs and isinstance(gen.target, ast.Name) and isinstance(node.elt, ast.Name) and node.elt.id == gen.target.id and flavour == "list"):
+            # [x for x in G()] / [x async for x in G()] over a generator of the repository that is under contract: the
+            # generator is drained - the result is the (fresh) sequence of everything it yields, or it raises what the
+            # generator's contract lets it raise.  One event `iter.drain` carries the sequence for the caller's contract.
+            con = src.payload.contract
+            fi = eng.repo.func(eng.tree_name(con.key))
+            label = f"drain:{con.key.rsplit('.', 1)[-1]}@{node.lineno}"
+            if (fi.is_async if fi is not None else True) and eng.tree == "async":
+                it.suspend(st, label)
+            raises = [r for r in (con.call_raises if con.call_raises is not None else (con.raises or [])) if r != "GeneratorExit"]
+            if eng.tree != "async" or st.shield > 0:
+                raises = [r for r in raises if r != "Cancelled"]
+            names = ["drained"] + [r.rsplit(".", 1)[-1] for r in raises]
+            k = eng.choose(st, len(names), label, names)
+            if con.modifies:
+                eng.havoc_heap(st, keys=set(con.modifies), keep_local=False)
+            ev = it.emit(st, "iter.drain", node, source=con.key, generator=src)
+            if k > 0:
+                eng.raise_(st, raises[k - 1], tag={"from": label})
+            r = eng.fresh(st, "seq:" + con.item_kind, "drained")
+            ev.data["result"] = r
+            return r
         raise Unsupported(f"{it.site(node)}: comprehension over {src!r}")
     finally:
         names = it.assigned_names([gen.target])
